@@ -10,7 +10,7 @@ structure DState where
   deriving Inhabited
 
 def parseKind : String → Option Kind
-  | "sync" => some .sync | "async" => some .async | "cblock" => some .cblock
+  | "sync" => some .sync | "async" => some .async | "ainit" => some .ainit | "aplain" => some .aplain | "cblock" => some .cblock
   | "timer" => some .timer | "outf" => some .outf | "outa" => some .outa | "ctrl" => some .ctrl
   | _ => none
 
@@ -19,6 +19,7 @@ def parseCause : String → Option CauseKind
   | "ctrlShutdown" => some .ctrlShutdown | "ctrlAbort" => some .ctrlAbort
   | "sigterm" => some .sigterm | "supportEnd" => some .supportEnd
   | "supportFail" => some .supportFail | "handlerErr" => some .handlerErr
+  | "innerShutdown" => some .innerShutdown | "innerAbort" => some .innerAbort
   | _ => none
 
 def parseBool : String → Option Bool
@@ -71,11 +72,12 @@ def joinOr (l : List String) : String := if l.isEmpty then "-" else ",".intercal
 def sortStrings (l : List String) : List String := l.mergeSort (fun a b => a ≤ b)
 
 def handle (s : DState) : List String → DState × String
-  | ["reset", ck, before, time, late, wi] =>
-    match parseCause ck, parseBool before, time.toNat?, parseBool late, parseBool wi with
-    | some ck, some b, some t, some l, some w =>
-      ({ cfg := { cause := { kind := ck, before := b, time := t, late := l }, waitInit := w }, res := none }, "ok")
-    | _, _, _, _, _ => (s, "bad-op")
+  | ["reset", ck, before, time, late, wi, ra] =>
+    match parseCause ck, parseBool before, time.toNat?, parseBool late, parseBool wi, parseBool ra with
+    | some ck, some b, some t, some l, some w, some ra =>
+      ({ cfg := { cause := { kind := ck, before := b, time := t, late := l, raiseAfter := ra }, waitInit := w },
+         res := none }, "ok")
+    | _, _, _, _, _, _ => (s, "bad-op")
   | ["blk", kind, flags, mf, idur, ito, cdur, sdur, sto, ons] =>
     match parseBlk kind flags mf idur ito cdur sdur sto ons with
     | some b => ({ s with cfg := { s.cfg with blocks := s.cfg.blocks ++ [b] } },
